@@ -341,7 +341,25 @@ func (c *scnCtx) scenario() sched.Scenario {
 				for _, sec := range closest {
 					onlyStrategy = onlyStrategy && strings.HasPrefix(sec, "strategy choices")
 				}
-				if onlyStrategy {
+				rvKey := ""
+				onlyRv := len(closest) > 0
+				for _, sec := range closest {
+					onlyRv = onlyRv && scn.ReadvertiseSection(sec)
+				}
+				if onlyRv {
+					// FIB, RIB, faces and strategy choices are those of some order; what the readvertisers
+					// were told is not. The key names what differs (the net advertised set, the readvertiser's
+					// counter, or only the order) and the RIB updates of the scenario.
+					// (one root cause, one key: the RIB's own notifications if they are of no order - the FIB
+					// implementation and the colliding update kinds play no part in that -, otherwise what the
+					// NLSR readvertiser made of them)
+					rvKey = "what the NLSR readvertiser sent / counted matches no sequential order although the tables and the RIB's notifications do (commands per prefix, last command per prefix = prefixes left advertised, count of advertised routes)"
+					for _, sec := range closest {
+						if strings.HasPrefix(sec, "readvertise notifications") {
+							rvKey = "the RIB's announce/withdraw notifications to the readvertisers (per prefix, in the order delivered) match no sequential order although the tables do"
+						}
+					}
+				} else if onlyStrategy {
 					// next hops, routes and faces are those of some order, the strategy choices are not: the key
 					// names the strategy updates of the scenario, whatever ran next to them
 					var g []string
@@ -383,7 +401,11 @@ func (c *scnCtx) scenario() sched.Scenario {
 					}
 					what = "a route or next hop of a torn-down face remains: " + what
 				}
-				fs = append(fs, sched.Finding{Clause: "C16.final", Key: c.fib + " final tables match no sequential order: " + what, Detail: fmt.Sprintf("(faces no longer in the face table that still own a route or next hop: %v) ", deadRefs) + fmt.Sprintf("differs from the closest sequential outcome in %v; ", closest) + "final state " + final + " equals the outcome of no real-time-consistent sequential order of " + c.s.Name})
+				key := c.fib + " final tables match no sequential order: " + what
+				if rvKey != "" {
+					key = rvKey
+				}
+				fs = append(fs, sched.Finding{Clause: "C16.final", Key: key, Detail: fmt.Sprintf("(faces no longer in the face table that still own a route or next hop: %v) ", deadRefs) + fmt.Sprintf("differs from the closest sequential outcome in %v; ", closest) + "final state " + final + " equals the outcome of no real-time-consistent sequential order of " + c.s.Name})
 			} else if !linOK {
 				// which op kinds have results that no order explains
 				if staleLookup != "" {
@@ -745,6 +767,9 @@ func main() {
 		groups := map[string][]workItem{}
 		for _, it := range items {
 			g := it.Fib + scn.Family(all[it.Idx].Name)
+			if scn.Readvertised(all[it.Idx].Name) {
+				g += " readvertised routes" // (a group of their own in every family: small programs, dealt from the start)
+			}
 			if _, ok := groups[g]; !ok {
 				order = append(order, g)
 			}
@@ -841,7 +866,7 @@ func main() {
 		"preemption_bound_target": bound, "distinct_histories": outcomes, "determinism_double_runs": dbl,
 		"exhaustive": complete, "samples": samples, "per_scenario": per,
 		"lookup_results_kept_by_reference_and_reread": kept, "scenarios_per_family": famScn, "schedules_per_family": famExec,
-		"rule":        "for each of the 2- and 3-thread scenarios (all pairs over 16 thread programs colliding on /a, /a/b and faces 1,2, plus selected triples; family B: the same from a state with leftovers of earlier removals; family C: strategy choices re-pointed/unset/re-created on prefixes that already have one, incl. the default on /, against strategy and next-hop lookups; family D: faces that really are in the face table and the dispatch table and own routes, torn down through the real face.Table.Remove and the real faces/destroy handler - also twice, by two threads - against the real rib/register, rib/unregister, fib/add-nexthop, fib/remove-nexthop handlers of the management thread (explicit FaceId: guarded by the face's existence; no FaceId: the arrival face), lookups and face-table / dispatch-table probes, incl. a lookup and a probe issued by the thread whose teardown has just returned; forwarding threads whose dispatch-table lookups alternate between the two faces and the real strategy-choice/set handler on the prefix whose only route belongs to the face torn down; family E: the life cycle of ONE entry - every operation addresses the leaf prefix /e, started in every shape {no entry, 1 next hop, (thorough: 2 next hops)} x {no strategy choice, a choice}: set / re-point / unset the choice, route add/remove, next-hop insert/remove, face teardown, remove-and-re-create, all pairs with a strategy update or the reader on one side (thorough: all pairs) plus triples) x {tree, hashtable FIB}: every schedule with at most the stated number of preemptions, scheduling points at every sync operation of fw/table and between obtaining and consuming a lookup result; each complete execution checked for crash, deadlock, linearizability against the same implementation run sequentially (brute force over all program-order- and real-time-consistent orders), torn results and final-state equivalence (final state = the face table and the dispatch table asked under EVERY face id of the universe, unlisted ids first and before anything else; every lookup the threads issued repeated once more, per thread last lookup first; next hops and strategy in effect over 13 names; FIB, RIB and strategy-choice listings; listed faces; readvertised commands); every value a lookup returned is kept by reference with a deep snapshot taken at the return and read again after the lookup thread's next scheduling point, after every completed operation and after all threads finished (a difference = the returned list/name was rewritten under its holder: C16.torn)",
+		"rule":        "for each of the 2- and 3-thread scenarios (all pairs over 16 thread programs colliding on /a, /a/b and faces 1,2, plus selected triples; family B: the same from a state with leftovers of earlier removals; family C: strategy choices re-pointed/unset/re-created on prefixes that already have one, incl. the default on /, against strategy and next-hop lookups; family D: faces that really are in the face table and the dispatch table and own routes, torn down through the real face.Table.Remove and the real faces/destroy handler - also twice, by two threads - against the real rib/register, rib/unregister, fib/add-nexthop, fib/remove-nexthop handlers of the management thread (explicit FaceId: guarded by the face's existence; no FaceId: the arrival face), lookups and face-table / dispatch-table probes, incl. a lookup and a probe issued by the thread whose teardown has just returned; forwarding threads whose dispatch-table lookups alternate between the two faces and the real strategy-choice/set handler on the prefix whose only route belongs to the face torn down; family E: the life cycle of ONE entry - every operation addresses the leaf prefix /e, started in every shape {no entry, 1 next hop, (thorough: 2 next hops)} x {no strategy choice, a choice}: set / re-point / unset the choice, route add/remove, next-hop insert/remove, face teardown, remove-and-re-create, all pairs with a strategy update or the reader on one side (thorough: all pairs) plus triples) x {tree, hashtable FIB}: every schedule with at most the stated number of preemptions, scheduling points at every sync operation of fw/table and between obtaining and consuming a lookup result; each complete execution checked for crash, deadlock, linearizability against the same implementation run sequentially (brute force over all program-order- and real-time-consistent orders), torn results and final-state equivalence (final state = the face table and the dispatch table asked under EVERY face id of the universe, unlisted ids first and before anything else; every lookup the threads issued repeated once more, per thread last lookup first; next hops and strategy in effect over 14 names; FIB, RIB and strategy-choice listings; listed faces; what the readvertisers were told: number of commands sent to NLSR, last command per prefix = the prefixes left advertised, commands per prefix in the order sent with origin and cost, the NLSR readvertiser's own per-prefix count, and the RIB's announce/withdraw notifications for routes of every origin per prefix in the order delivered); every value a lookup returned is kept by reference with a deep snapshot taken at the return and read again after the lookup thread's next scheduling point, after every completed operation and after all threads finished (a difference = the returned list/name was rewritten under its holder: C16.torn)",
 		"explanation": "states/transitions = scheduling points visited; every schedule is an execution of the real code under the controlled scheduler",
 	}
 	if os.Getenv("C16_ONLY_FAMILY") == "" && os.Getenv("C16_ONLY_SCN") == "" {
